@@ -3,7 +3,6 @@ import stat
 import subprocess
 
 from pygopherd import gopherentry
-from pygopherd.handlers.base import VFS_Real
 from pygopherd.handlers.virtual import Virtual
 
 
@@ -11,7 +10,7 @@ class ExecHandler(Virtual):
     def canhandlerequest(self):
         # We ONLY handle requests from the real filesystem.
         return (
-            isinstance(self.vfs, VFS_Real)
+            self.vfs.isreal()
             and self.statresult
             and stat.S_ISREG(self.statresult[stat.ST_MODE])
             and (stat.S_IMODE(self.statresult[stat.ST_MODE]) & stat.S_IXOTH)
